@@ -9,6 +9,7 @@ declare -A CHECKS=(
  [neutral5]="C01 C11 C04 C05 C13"
  [neutral7-n1]="C11 C01" [neutral7-n2]="C11 C01 C04 C05" [neutral7-n3]="C11 C01" [neutral7-n4]="C11 C01" [neutral7-n5]="C13 C15 C11 C01"
  [neutral8-n1]="C04 C05 C01 C11" [neutral8-n2]="C19 C15" [neutral8-n3]="C12 C15 C13" [neutral8-n4]="C01 C11 C13 C14"
+ [neutral9-n1]="C01 C11 C05" [neutral9-n2]="C04 C05 C01 C11" [neutral9-n3]="C19 C15" [neutral9-n4]="C12 C13 C15"
  [neutral6-n1]="C14 C15 C11" [neutral6-n2]="C19 C15" [neutral6-n3]="C12 C13 C15" [neutral6-n4]="C13 C15 C12 C01"
 )
 for d in neutral/*/; do
